@@ -325,6 +325,71 @@ func registerTrimModels(e *Engine) {
 	}
 }
 
+// strconv.ParseInt / ParseUint (base 10) on symbolic ASCII text of at most 18 characters: valid iff
+// [+-]?digits+ (no sign for ParseUint); out of the bitSize range -> range error
+func registerParseIntModels(e *Engine) {
+	for _, name := range []string{"strconv.ParseInt", "strconv.ParseUint"} {
+		signed := name == "strconv.ParseInt"
+		fname := name
+		e.intrinsics[name] = func(x *Exec, fn *ssa.Function, a []Value) (Value, bool) {
+			s := a[0].(*StrVal)
+			if s.IsConcrete() {
+				return nil, false
+			}
+			base, bits := a[1].(*Term), a[2].(*Term)
+			if !base.IsConst() || !bits.IsConst() || (base.Val != 10) {
+				panic(unsupported(fname + " with symbolic text and base != 10"))
+			}
+			bs := int(bits.Val)
+			if bs == 0 {
+				bs = 64
+			}
+			al := x.pickAlt(s)
+			bad := func(msg string) (Value, bool) {
+				return TupleVal{mkBV(64, 0), x.errorValue(fname + ": parsing: " + msg)}, true
+			}
+			i, neg := 0, false
+			if al.Len() > 0 && signed {
+				if x.decide(tEq(al.Byte(0), mkBV(8, '-'))) {
+					neg, i = true, 1
+				} else if x.decide(tEq(al.Byte(0), mkBV(8, '+'))) {
+					i = 1
+				}
+			}
+			if i >= al.Len() {
+				return bad("invalid syntax")
+			}
+			if al.Len()-i > 18 {
+				panic(unsupported(fname + " of symbolic text longer than 18 digits"))
+			}
+			v := mkBV(64, 0)
+			for ; i < al.Len(); i++ {
+				b := al.Byte(i)
+				if !x.decide(tAnd(bvCmp(OpULe, mkBV(8, '0'), b), bvCmp(OpULe, b, mkBV(8, '9')))) {
+					return bad("invalid syntax")
+				}
+				v = bvBin(OpAdd, bvBin(OpMul, v, mkBV(64, 10)), tZExt(bvBin(OpSub, b, mkBV(8, '0')), 64))
+			}
+			if neg {
+				v = bvUn(OpNeg, v)
+			}
+			if bs < 64 {
+				var in *Term
+				if signed {
+					lo, hi := uint64(-(int64(1) << (bs - 1))), uint64(int64(1)<<(bs-1)-1)
+					in = tAnd(bvCmp(OpSLe, mkBV(64, lo), v), bvCmp(OpSLe, v, mkBV(64, hi)))
+				} else {
+					in = bvCmp(OpULe, v, mkBV(64, uint64(1)<<bs-1))
+				}
+				if !x.decide(in) {
+					return bad("value out of range")
+				}
+			}
+			return TupleVal{v, nilIface}, true
+		}
+	}
+}
+
 func asciiLower(s string) string {
 	b := []byte(s)
 	for i, c := range b {
